@@ -210,12 +210,17 @@ def image_chain(o, keyname):
     inodes = [sl for sl, c in cells.items() if c["key"] == keyname and c["first"] == sl]
     if len(inodes) != 1:
         return None
-    tags, cur, seen = [], inodes[0], set()
+    tags, cur, seen = [], inodes[0], []
     while cur >= 0 and cur in cells and cur not in seen:
-        seen.add(cur)
+        seen.append(cur)
         tags.append(cells[cur]["tag"])
         cur = cells[cur]["next"]
-    return tags
+    return tags, seen
+
+
+def torn_slots(o):
+    """slots hit by a torn write (`P:<slot>:<bytes>` records of the injector's trace)"""
+    return set(int(m.group(1)) for m in re.finditer(r"(?:^|[;:|])P:(\d+):\d+", o["trace"]))
 
 
 def classify(l, impl, why):
@@ -232,15 +237,16 @@ def classify(l, impl, why):
         keys = ["k%d" % int(m.group(1))]
     else:
         keys = ["k%d" % k for k in range(sc["nkeys"])]
-    torn = any(c[0] == "n" and c[2] > 0 for _, c in sc["phases"])
+    torn = torn_slots(o) if any(c[0] == "n" and c[2] > 0 for _, c in sc["phases"]) else set()
     for keyname in keys:
-        tags = image_chain(o, keyname)
-        if not tags:
+        ch = image_chain(o, keyname)
+        if not ch or not ch[0]:
             continue
+        tags, slots = ch
+        if torn & set(slots):
+            # the slot whose write was torn is part of the chain the rebuild accepted
+            return "C16-rock-torn-slot-accepted"
         if "x" in tags:
-            # bytes that are no piece of any response: only a torn write explains them
-            if torn:
-                return "C16-rock-torn-slot-accepted"
             continue
         srcs = set(re.match(r"([kx]\d+v\d+)p\d+$", t).group(1) for t in tags if re.match(r"([kx]\d+v\d+)p\d+$", t))
         if len(srcs) >= 2 and all(x.split("v")[0] == keyname for x in srcs):
